@@ -77,6 +77,51 @@ def _imported_key_nodes(rng, tier):
                     yield "w_addr xkey:%s %s %s" % (sx(s_), sx(pth), kind), "imported-key-node"
 
 
+_RMD = {
+    "ML": [0, 1, 2, 3, 4, 5, 6, 7, 8, 9, 10, 11, 12, 13, 14, 15], "MR": [5, 14, 7, 0, 9, 2, 11, 4, 13, 6, 15, 8, 1, 10, 3, 12],
+    "RL": [11, 14, 15, 12, 5, 8, 7, 9, 11, 13, 14, 15, 6, 7, 9, 8], "RR": [8, 9, 9, 11, 13, 15, 15, 5, 7, 7, 8, 11, 14, 14, 12, 6],
+    "KR0": 0x50a28be6, "INIT": (0x67452301, 0xefcdab89, 0x98badcfe, 0x10325476, 0xc3d2e1f0)}
+
+
+def rmd_corner_block(rng, side, j, what):
+    """a 64-byte first block for which step j (< 16: round 0, where every message word is used once per line) of the
+    left / right line of RIPEMD-160 meets the named corner.  Written from the specification (round-0 functions only:
+    f = x^y^z on the left, x^(y|~z) on the right), independent of the code under test."""
+    M = 0xffffffff
+
+    def rol(v, r):
+        v &= M
+        return ((v << r) | (v >> (32 - r))) & M
+
+    def ror(v, r):
+        return rol(v, 32 - r)
+    order = _RMD["ML"] if side == "L" else _RMD["MR"]
+    rots = _RMD["RL"] if side == "L" else _RMD["RR"]
+    k = 0 if side == "L" else _RMD["KR0"]
+    x = [rng.getrandbits(32) for _ in range(16)]
+    a, b, c, d, e = _RMD["INIT"]
+    for t in range(j + 1):
+        f = (b ^ c ^ d) if side == "L" else (b ^ (c | (~d & M)))
+        f &= M
+        if t == j:
+            # want: rol(a + f + x + k, r) + e  at the corner  (or a + f + x + k itself)
+            if what.startswith("sum="):
+                target = {"sum=2^32": 2 ** 32, "sum=2^32-1": 2 ** 32 - 1, "sum=2^32+1": 2 ** 32 + 1}[what]
+                rot_val = target - e
+                if not 0 <= rot_val <= M:
+                    return None
+                pre = ror(rot_val, rots[t])                 # value of (a+f+x+k) mod 2^32
+            else:
+                pre = {"pre=2^32": 0, "pre=2^32-1": M, "pre=0": 0}[what]
+            xw = (pre - a - f - k) % 2 ** 32
+            if what == "pre=0" and (a + f + xw + k) != 0:
+                return None                                  # the unreduced sum cannot be 0 unless every term is
+            x[order[t]] = xw
+        s_ = rol(a + f + x[order[t]] + k, rots[t]) + e
+        a, b, c, d, e = e, s_ & M, b, rol(c, 10), d
+    return b"".join(w.to_bytes(4, "little") for w in x)
+
+
 def cases(rng, tier):
     yield from _zero_block_cases(rng, tier)
     yield from _mismatched_flag_wallets(rng, tier)
@@ -154,6 +199,17 @@ def cases(rng, tier):
         d = bytes(rng.getrandbits(8) for _ in range(rng.randint(0, 300)))
         yield "rmd160 " + hx(d), "rmd160-random"
         yield "sha256 " + hx(d), "sha256-conformance"
+    # RIPEMD-160 driven to the ALGEBRAIC CORNERS of its word arithmetic: in step j of either line the message word used
+    # there is solved so that the rotated sum plus e is exactly 2^32 (reduces to 0), 2^32 - 1, 2^32 + 1, or the sum
+    # before the rotation is exactly 2^32 / 2^32 - 1 / 0 — values a reduction written with a comparison, or a rotate
+    # that assumes a reduced operand, gets wrong (they occur with probability 2^-32 per step on random input)
+    for side in ("L", "R"):
+        for j in (range(16) if tier == "thorough" else sorted(rng.sample(range(16), 4))):
+            for what in ("sum=2^32", "sum=2^32-1", "sum=2^32+1", "pre=2^32", "pre=2^32-1", "pre=0"):
+                blk = rmd_corner_block(rng, side, j, what)
+                if blk is not None:
+                    tail = bytes(rng.getrandbits(8) for _ in range(rng.choice([0, 0, 5, 64])))
+                    yield "rmd160 " + hx(blk + tail), "rmd160-word-corner"
     for kind, ln in (("p2pkh", 20), ("p2sh", 20), ("p2wpkh", 20), ("p2wsh", 32)):
         yield "scr_build %s %s" % (kind, hx(bytes(rng.getrandbits(8) for _ in range(ln)))), "builder"
 
